@@ -155,12 +155,23 @@ def index_probe():
     return bad
 
 
+def _probe(res, name, fn):
+    """a probe that cannot even build its values (the constructors it uses raise) is a broken obligation, not a crash of the check"""
+    try:
+        return fn()
+    except Exception as exc:  # pylint: disable=broad-except
+        from ..real.env import reset_globals
+        reset_globals()
+        res.broken.append({"decl": f"C12 {name} probe (legal constructions of n-tuples / objects)", "msg": f"{type(exc).__name__}: {exc}"[:300]})
+        return []
+
+
 def run(res, tier):
-    for text in aliasing_probe():
+    for text in _probe(res, "aliasing", aliasing_probe):
         res.violation({"property": "C12", "kind": "aliasing", "text": text}, "aliasing: " + text)
-    for text in missing_field_probe()[:3]:
+    for text in _probe(res, "missing-field", missing_field_probe)[:3]:
         res.violation({"property": "C12", "kind": "missing-field", "text": text}, "field: " + text)
-    for text in index_probe():
+    for text in _probe(res, "index", index_probe):
         res.violation({"property": "C12", "kind": "index-kind", "text": text}, "index: " + text)
     gc.run_graph(res, tier, "C12", oracle, project, classify)
 
